@@ -1,6 +1,7 @@
 package rows
 
 import (
+	"bytes"
 	"encoding/hex"
 	"fmt"
 	"math/big"
@@ -83,7 +84,15 @@ func shuffle[T any](r *lib.RNG, xs []T) {
 	}
 }
 
-func genHash(r *lib.RNG) []byte { return r.Bytes(32) }
+func genHash(r *lib.RNG) []byte {
+	h := r.Bytes(32)
+	if r.Chance(1, 6) { // hashes with leading zero bytes exist
+		for i := r.Range(1, 2); i > 0; i-- {
+			h[i-1] = 0
+		}
+	}
+	return h
+}
 
 func genU256(r *lib.RNG) string {
 	switch r.Intn(5) {
@@ -381,6 +390,9 @@ func markBadABI(c *GCase) {
 
 func hexArg(r *lib.RNG, b []byte) string {
 	s := hex.EncodeToString(b)
+	if len(s) > 0 && s[0] == '0' && r.Chance(1, 4) {
+		s = s[1:] // odd-length spelling: DecodeHex pads a leading zero digit
+	}
 	switch r.Intn(5) {
 	case 0:
 		return "0x" + strings.ToUpper(s)
@@ -474,7 +486,22 @@ func genFilterFor(r *lib.RNG, c *GCase, vals []exVal, kind string, odd bool) Flt
 		for n := r.Range(1, 3); n > 0; n-- {
 			v := pick().B
 			switch k := r.Intn(10); {
-			case k < 5 || len(v) == 0:
+			case len(v) == 0:
+			case len(v) > 1 && v[0] == 0 && k < 8:
+				// a value that begins with zero bytes: itself (mostly), the value
+				// without its leading zero bytes, zeros of the same length, a short run of zeros
+				switch r.Intn(8) {
+				case 0:
+					v = bytes.TrimLeft(v, "\x00")
+					if len(v) == 0 {
+						v = []byte{0}
+					}
+				case 1:
+					v = make([]byte, len(v))
+				case 2:
+					v = make([]byte, r.Range(1, 3))
+				}
+			case k < 5:
 			case k < 7: // near miss
 				v = append([]byte{}, v...)
 				v[r.Intn(len(v))] ^= 1
@@ -852,7 +879,7 @@ func rowMix(r *lib.RNG, c *GCase) {
 				if parseType(ty).Fixed == 0 {
 					m = r.Range(3, 6)
 				}
-				pat := r.Intn(5)
+				pat := r.Intn(9)
 				var es []Val
 				for j := 0; j < m; j++ {
 					var a bool
@@ -865,6 +892,14 @@ func rowMix(r *lib.RNG, c *GCase) {
 						a = j < m/2
 					case 3:
 						a = j >= m/2
+					case 4: // only the first rejected
+						a = j != 0
+					case 5: // only a middle one rejected
+						a = j != m/2
+					case 6: // all but the last rejected
+						a = j == m-1
+					case 7: // only the last rejected
+						a = j != m-1
 					default:
 						a = r.Bool()
 					}
@@ -1097,4 +1132,15 @@ func (c *GCase) Size() int {
 		}
 	}
 	return n
+}
+
+// EnsureAbiIdx adds an abi_idx column to the declaration if it has none.
+func EnsureAbiIdx(c *GCase) {
+	for _, b := range c.Decl.Block {
+		if b.Name == "abi_idx" {
+			return
+		}
+	}
+	c.Decl.Block = append(c.Decl.Block, BD{Name: "abi_idx", Column: "abi_idx_col"})
+	c.Decl.TableCols = append(c.Decl.TableCols, "abi_idx_col")
 }
